@@ -234,6 +234,28 @@ def _args_c04(ck, mod, f, label, call, a, A, where, mi, li):
         raise Broken("%s: the length passed to check_tag cannot be related to clen - 8 by the affine analysis (%s)" % (f.name, why2))
     ck.ob(ok2, "R-C04-ARGS", f.name, "wipe-length[%s]" % label, "check_tag receives the full plaintext length clen - 8",
           "the length passed for wiping is not clen - 8 on every path: %s" % why2, where=where)
+    # ... and at full width: a length that went through a narrower integer on its way (a helper with an `unsigned` parameter, inlined here) is
+    # clen - 8 only below 2^w
+    nar = None
+    v_, seen_ = tuple(a[1]), set()
+    st_ = [v_]
+    while st_ and nar is None:
+        x_ = st_.pop()
+        if x_ in seen_ or x_[0] != "i":
+            continue
+        seen_.add(x_)
+        J_ = f.inst(x_)
+        if J_ is None:
+            continue
+        if J_.op == "trunc" and (J_.bits or 64) < 64:
+            nar = (J_, J_.bits)
+        elif J_.op == "and" and any(isinstance(o_, (list, tuple)) and o_[0] == "c" and 0 < const_val(o_) < (1 << 63) and const_val(o_).bit_length() <= 32 and const_val(o_).bit_length() >= 16 for o_ in J_.ops):
+            nar = (J_, 32)
+        elif J_.op in ("zext", "sext", "freeze", "phi", "select", "and", "sub", "add"):
+            st_ += [tuple(o_) for o_ in J_.ops if isinstance(o_, (list, tuple)) and o_ and o_[0] == "i"]
+    ck.ob(nar is None, "R-C04-ARGS", f.name, "wipe-length-full-width[%s]" % label, "the plaintext length reaches check_tag without passing through a narrower integer",
+          "the plaintext length passes through a %s-bit value on its way to check_tag: for messages of 2^%s bytes or more only (length mod 2^%s) bytes are wiped on rejection"
+          % ((nar[1],) * 3 if nar else ("?",) * 3), where=relpath(nar[0].where) if nar else where)
 
 
 def _reach_from_entry_avoiding(f, target, avoid):
